@@ -219,6 +219,24 @@ def sc_closed_early(llc, ctx):
     return [('app', app)]
 
 
+def sc_poll_vs_close(llc, ctx):
+    """poll('recv') and close() of the same connected socket both wait on recv_ready; the DM that answers
+    close()'s DISC is announced with a single notify(): whoever is not woken stays until the link ends"""
+    s = sock(llc, DLC)
+
+    def app1():
+        ok = ctx.call('dlc.connect', lambda: s.connect(16))[0] == 'ret'
+        ctx.after_conn.set()          # (also when connect failed: app2 must not wait on the harness itself)
+        if ok:
+            ctx.call('dlc.poll-recv', lambda: s.poll('recv'))
+
+    def app2():
+        ctx.after_conn.wait()
+        ctx.call('dlc.close', s.close)
+    ctx.after_conn = ctx.sch.threading.Event()
+    return [('app1', app1), ('app2', app2)]
+
+
 class Snep(nfc.snep.server.SnepServer):
     pass
 
@@ -260,6 +278,8 @@ SCENARIOS = {
     'threads': dict(build=sc_two_threads, peer=dict(snl=False, cc=False), ends=(1, 3)),
     'close-vs-term': dict(build=sc_close_vs_term, peer=dict(dm=False), ends=(2, 4)),
     'closed-early': dict(build=sc_closed_early, ends=(1, 3)),
+    'poll-vs-close': dict(build=sc_poll_vs_close, ends=(3, 5, 8)),
+    'poll-vs-close-nodm': dict(build=sc_poll_vs_close, peer=dict(dm=False), ends=(3, 6)),
     'snep-idle': dict(build=sc_snep, ends=(0, 2)),
     'snep-put': dict(build=sc_snep, peer=dict(push=push_server(4, SNEP_PUT)), ends=(1, 2, 3, 4, 6)),
     'snep-frag': dict(build=sc_snep, peer=dict(push=push_server(4, SNEP_PUT_FRAG)), ends=(3, 4, 6)),
@@ -865,7 +885,7 @@ def main():
     coq_ok = True
     import os
     if os.path.exists(os.path.join(os.path.dirname(__file__), '..', '..', 'coq', 'Props', 'C09.v')):
-        coq_ok = ck.coq(gen=['TcoSkel'], targets=['Proofs/LlcLife.vo', 'Bridge/C09Skel.vo'], props=['C09', 'C09Skel'])
+        coq_ok = ck.coq(gen=['TcoSkel'], targets=['Proofs/LlcLife.vo', 'Proofs/LlcLifeOwn.vo', 'Bridge/C09Skel.vo'], props=['C09', 'C09Skel'])
     del coq_ok
     global CORR
     mr = ck.model()
